@@ -104,6 +104,40 @@ var c21spis = []c21spi{
 	{"non-drkey-high", 0xfedcba98, false, false, false},
 }
 
+// c21SPIGrid: the boundary values of every sub-field of the SPI, multiplied out: bits 31..21 (0 = DRKey range, lowest and
+// all bits set = beyond the range), the three reserved bits R (all 8 values), type T, direction D, and the 16-bit
+// protocol identifier {0, 1, max-1, max}. Classification strictly from authenticator-option.rst: an SPI identifies a
+// DRKey iff 1 <= SPI <= 2^21-1 (whatever its sub-fields are); then T=0 means AS-host key, D=0 sender side.
+// SPI 0 (reserved for local use, never on the wire) is left out.
+func c21SPIGrid() []c21spi {
+	var out []c21spi
+	for _, up := range []uint32{0, 1, 0x7ff} {
+		for r := uint32(0); r < 8; r++ {
+			for t := uint32(0); t < 2; t++ {
+				for d := uint32(0); d < 2; d++ {
+					for pi, proto := range []uint32{0, 1, 0xfffe, 0xffff} {
+						spi := up<<21 | r<<18 | t<<17 | d<<16 | proto
+						if spi == 0 {
+							continue
+						}
+						dr := spi >= 1 && spi <= 1<<21-1
+						rc := "0"
+						if r == 7 {
+							rc = "max"
+						} else if r > 0 {
+							rc = "mid"
+						}
+						name := fmt.Sprintf("grid:upper=%s,R=%s,T=%d,D=%d,proto=%s", []string{"0", "1", "", "max"}[min(up, 3)], rc, t, d,
+							[]string{"0", "1", "max-1", "max"}[pi])
+						out = append(out, c21spi{name, spi, dr, t == 0, d == 0})
+					}
+				}
+			}
+		}
+	}
+	return out
+}
+
 func (s c21spi) dstCovered() bool { return !s.drkey || (s.asHost && !s.sender) }
 func (s c21spi) srcCovered() bool { return !s.drkey || (s.asHost && s.sender) }
 
@@ -476,7 +510,8 @@ func TestC21(t *testing.T) {
 	}
 	bases := c21Bases()
 	r.Rule = "base packets = path kind x address layout {4/4,16/4,SVC/16} x traffic class {0x00,0x3c,0xb8,0xff} x 7 SPI kinds x 2 (algorithm," +
-		" timestamp) settings; single-field changes = every single bit of the serialized common, address and path header, in both path " +
+		" timestamp) settings; plus the SPI grid (boundary values of every SPI sub-field multiplied out: bits 31..21 {0,1,max} x R (8) x T x D x " +
+		"protocol {0,1,max-1,max}, 383 SPIs) x every address-header bit on the traffic-class-zero bases; single-field changes = every single bit of the serialized common, address and path header, in both path " +
 		"representations, plus every bit of algorithm (8), timestamp (48), upper-layer type (8), every payload bit, payload length +-1, the " +
 		"PathType/NextHdr/PayloadLen struct fields, and added/removed/modified HBH and E2E extension headers; every (base, SPI, setting, change) " +
 		"is a distinct case; non-trivial = the changed packet is decoded and authenticated by the real code"
@@ -484,6 +519,8 @@ func TestC21(t *testing.T) {
 	payload := []byte{0xde, 0xad, 0xbe, 0xef, 0x00, 0x01, 0x7f, 0x80, 0xff}
 	var evals atomic.Int64
 	viol := func(key string, detail string) { r.Violation(key, detail) }
+	grid := c21SPIGrid()
+	var gridCov, gridExcl atomic.Int64
 	var stop atomic.Bool
 	mc.ParallelFor(len(bases), func(bi int) {
 		if stop.Load() {
@@ -721,6 +758,64 @@ func TestC21(t *testing.T) {
 				}
 			}
 		}
+		// ---- SPI grid: the SPI only decides which ADDRESS fields are authenticated, so the large SPI alphabet is swept over
+		// the address header (every bit of both ISD-ASes and both hosts) plus the exact oracle, on the traffic-class-zero
+		// bases (thorough: all traffic-class-neutral bases, both path representations)
+		if b.h.TC == 0 || (mc.Thorough() && tcNeutral) {
+			alg, ts := uint8(0), uint64(0x0000a1b2c3d4e5f6)&0xffffffffffff
+			f := make([]byte, len(hdr))
+			for _, s := range grid {
+				ctx := fmt.Sprintf("base{%s} spi{%s %#x}", b.name, s.name, s.spi)
+				for rep := 0; rep < 2; rep++ {
+					asDec := rep == 1
+					if asDec && (sc.PathType != wsSCION || !mc.Thorough()) {
+						continue
+					}
+					m, dec, err := w.mac(hdr, s, alg, ts, 17, payload, asDec, nil)
+					n++
+					if !dec || err != nil {
+						r.HarnessError("base packet not usable: %s: decoded=%v err=%v", ctx, dec, err)
+						return
+					}
+					want, _ := wsCMAC(c21Key, c21DocInput(hdr, sc, s, alg, ts, 17, payload))
+					e.mu.Lock()
+					e.st.exact++
+					e.mu.Unlock()
+					if want != m {
+						viol("mac-input-differs-from-doc:"+s.name, fmt.Sprintf("%s: real %x documented %x (documented input %x)", ctx, m, want,
+							c21DocInput(hdr, sc, s, alg, ts, 17, payload)))
+					}
+					for off := 12; off < sc.PathOff; off++ {
+						for bit := 0; bit < 8; bit++ {
+							mask := byte(1) << bit
+							class, field := c21Classify(hdr, sc, s, off, mask)
+							copy(f, hdr)
+							f[off] ^= mask
+							m1, dec, err := w.mac(f, s, alg, ts, 17, payload, asDec, nil)
+							n++
+							if !dec || err != nil {
+								viol("mac-error-after-flip:"+field, fmt.Sprintf("%s: byte %d mask %#02x: decoded=%v %v", ctx, off, mask, dec, err))
+								continue
+							}
+							switch {
+							case class == c21Excluded && m1 != m:
+								viol("mutable-field-authenticated:"+field, fmt.Sprintf("%s: flipping header byte %d mask %#02x (%s, must not be covered for this SPI) "+
+									"changes the MAC %x -> %x; header %x", ctx, off, mask, field, m, m1, hdr))
+							case class == c21Covered && m1 == m:
+								viol("covered-field-not-authenticated:"+field, fmt.Sprintf("%s: flipping header byte %d mask %#02x (%s, must be covered for this SPI) "+
+									"leaves the MAC at %x; header %x", ctx, off, mask, field, m, hdr))
+							case class == c21Excluded:
+								e.note(field, 1)
+								gridExcl.Add(1)
+							default:
+								e.note(field, 0)
+								gridCov.Add(1)
+							}
+						}
+					}
+				}
+			}
+		}
 		evals.Add(n)
 	})
 	r.CaseBulk(evals.Load(), evals.Load())
@@ -746,6 +841,11 @@ func TestC21(t *testing.T) {
 	r.Extra["per_field"] = tab
 	r.Extra["base_packets"] = len(bases)
 	r.Extra["spi_kinds"] = len(c21spis)
+	r.Extra["spi_grid"] = map[string]int64{"spis": int64(len(grid)), "address_bit_flips_changed_as_required": gridCov.Load(),
+		"address_bit_flips_unchanged_as_required": gridExcl.Load()}
+	if gridCov.Load() == 0 || gridExcl.Load() == 0 {
+		r.HarnessError("SPI grid sweep vacuous")
+	}
 	r.Extra["exact_mac_comparisons"] = e.st.exact
 	r.Extra["traffic_class_findings"] = map[string]int64{"dscp_bit_flips_not_detected": e.tcDSCP.Load(), "ecn_bit_flips_changing_mac": e.tcECN.Load()}
 	if cov > 0 {
@@ -771,7 +871,8 @@ func TestC21(t *testing.T) {
 		"EPIC PktID/PHVF/LHVF are immutable path content (routers never rewrite them) => covered; the document only lists SCION and OneHop paths",
 		"reserved bits (common-header RSV, PathMeta RSV, info/hop flag RSV bits) and HdrLen bits are not judged",
 		"structural bits (PathType, DL/SL, SegLen) are judged only when the flipped header is still accepted by the decoder",
-		"the SPI value itself is not part of the MAC input (it selects the key); not judged",
+		"the SPI value itself is not part of the MAC input (it selects the key); not judged; an SPI is a DRKey SPI iff 1 <= SPI <= 2^21-1 " +
+			"regardless of its sub-fields (protocol 0 and set reserved bits included), SPI 0 is not explored",
 		"AES-128 key fixed; non-DRKey SPIs use the same CMAC code path",
 	}
 	r.Finish(4)
